@@ -121,6 +121,22 @@ func (w *World) TopPEG(n int) [][]byte {
 	return out
 }
 
+// ZeroPEG returns up to n addresses that have a ledger row but hold no PEG.
+func (w *World) ZeroPEG(n int) [][]byte {
+	rows, err := w.roDB().Query("SELECT address FROM pn_addresses WHERE peg_balance = 0 ORDER BY id LIMIT ?", n)
+	if err != nil {
+		return nil
+	}
+	defer rows.Close()
+	var out [][]byte
+	for rows.Next() {
+		var a []byte
+		rows.Scan(&a)
+		out = append(out, a)
+	}
+	return out
+}
+
 func (w *World) amountAround(bal uint64) uint64 {
 	r := w.G.R
 	switch r.Intn(9) {
@@ -326,6 +342,27 @@ func (w *World) BuildBlock(h uint32) *BlockSpec {
 				signers[i] = w.G.Users[0].Fs
 				payout[i] = w.G.Miners[i%len(w.G.Miners)]
 			}
+			// staker ids that are NOT top PEG holders: an address that has a row but no PEG,
+			// or an address the ledger has never seen. Either extra records beyond the 25, or in
+			// place of the 25th so that the set is complete only if the stranger is admitted.
+			if kindS >= 2 && kindS <= 7 {
+				var stranger []byte
+				if zero := w.ZeroPEG(3); len(zero) > 0 && kindS%2 == 0 {
+					stranger = zero[r.Intn(len(zero))]
+					w.Rep.Count("spr:zero-peg-staker")
+				} else {
+					stranger = make([]byte, 32)
+					r.Read(stranger)
+					w.Rep.Count("spr:unknown-staker")
+				}
+				if kindS <= 4 {
+					ids[cnt-1] = stranger
+				} else {
+					ids = append(ids, stranger)
+					signers = append(signers, w.G.Users[0].Fs)
+					payout = append(payout, w.G.Miners[0])
+				}
+			}
 			rates := map[string]uint64{}
 			for k, v := range w.G.Rates {
 				rates[k] = v
@@ -450,7 +487,7 @@ func runGeneralChain(rep *Report, seed int64, variant int, length uint32) {
 			rep.Sample(map[string]interface{}{"height": h, "era": eraOf(s.Acts, h), "result": res.ImplClass, "msg": res.ImplMsg})
 			lpath := WriteReplay(rep.Property, "general-liveness", Replay{Property: rep.Property, Scenario: "general", Seed: seed, Setup: s,
 				What: fmt.Sprintf("height %d cannot be applied: %s", h, res.ImplMsg), Blocks: ChainJSON(run.Chain)})
-			rep.Violate("liveness:"+res.ImplClass+":"+eraOf(s.Acts, h), fmt.Sprintf("height %d: %s", h, res.ImplMsg), lpath)
+			rep.Violate("liveness:"+res.ImplClass+":"+eraOf(s.Acts, h)+":"+msgSlug(res.ImplMsg), fmt.Sprintf("height %d: %s", h, res.ImplMsg), lpath)
 			// replace the block by an empty one so the chain can continue
 			if err := run.RecoverFrom(res); err != nil {
 				rep.Note("infrastructure: %v", err)
